@@ -30,13 +30,7 @@ Record python_like (parse_src : str -> option (list top)) : Prop := mkPythonLike
   P_canon : forall s tops, parse_src s = Some tops -> Forall (wf_top parse_src) tops;
   (* the text of the __all__ assignment over quote-free printable names is that assignment *)
   P_all : forall names, forallb safe_name names = true ->
-                        parse_src (all_text names) = Some [TAll names (all_text names)];
-  (* an import statement immediately followed, on the same line, by another import statement is a
-     syntax error whatever comes after, when what comes before is complete lines that parse *)
-  P_glue : forall pre tp ma mb a b rest,
-      parse_src pre = Some tp -> (pre = [] \/ exists p, pre = p ++ [nl]) ->
-      parse_src a = Some [TImport ma a] -> parse_src b = Some [TImport mb b] ->
-      parse_src (pre ++ a ++ b ++ rest) = None
+                        parse_src (all_text names) = Some [TAll names (all_text names)]
 }.
 
 (* ------------------------------------------------------------------ vocabulary of the theorems *)
@@ -64,9 +58,6 @@ Definition brace_free (s : str) : bool :=
 Definition texts_of (es : list entry) : list str :=
   map (fun e => match e_res e with Emitted t => t | _ => [] end) es.
 
-(* the two output types for which the emitter call binds *)
-Definition two_types (type_ : str) : Prop := type_ = L "class" \/ type_ = L "argparse".
-
 (* ------------------------------------------------------------------ the input of the property *)
 Inductive route : Type := ViaApi | ViaCli.
 
@@ -76,6 +67,7 @@ Record entry_feat : Type := mkFeat {
   f_is_function : bool;
   f_documented : bool;      (* the function, or the class itself, has a docstring *)
   f_n_params : nat;         (* parameters of the function / of __init__ besides self *)
+  f_n_required : nat;       (* how many of them have no default value *)
   f_doc_params : bool;      (* that docstring (for a class: the one of __init__) has :param lines *)
   f_annotated : bool;       (* the signature carries annotations *)
   f_returns : bool          (* the function returns a value *)
@@ -147,6 +139,16 @@ Definition header_of (parse_src : str -> option (list top)) (gi : gen_in) : opti
   | Some a, Some b => Some (a ++ b)
   | _, _ => None
   end.
+
+(* the import statements gen takes from the imports file, and the text it makes of them *)
+Definition file_imports (parse_src : str -> option (list top)) (gi : gen_in) : list top :=
+  match gi_imports_from_file gi with
+  | Some (GOk f) => match parse_src f with Some tops => get_at_root_imports tops | None => [] end
+  | _ => []
+  end.
+
+Definition imports_text (parse_src : str -> option (list top)) (gi : gen_in) : str :=
+  join [nl] (map top_text (file_imports parse_src gi)).
 
 Definition is_def_named (n : str) (d : top) : Prop := exists c t, d = TDef c n t.
 
@@ -222,24 +224,22 @@ Definition C19_domain (parse_src : str -> option (list top)) (x : c19_in) : bool
 (* ------------------------------------------------------------------ finding classes *)
 Inductive c19_class : Type :=
 | K_api_appends            (* gen() itself never looks at the output file: an existing one is appended to *)
-| K_function_type          (* type_ "function": emit.function is called without function_type *)
 | K_entry_undocumented     (* object without docstring: parse._inspect reads ir["params"] of an empty IR *)
 | K_entry_no_params        (* function without parameters: next(iter(sig.parameters.values())) *)
 | K_entry_returns_argparse (* function returning a value, type_ "argparse" *)
-| K_entry_annotated        (* annotated signature with documented parameters, type_ "class" *)
-| K_imports_glued          (* two or more import statements joined with nothing between them *)
-| K_prepend_glued.         (* prepend not ending in a newline, glued to the first import *)
+| K_entry_returns_function (* function returning a value, type_ "function" *)
+| K_entry_annotated        (* annotated signature with documented parameters, type_ "class" or "function" *)
+| K_entry_untyped_param.   (* type_ "function": a parameter with no type in docstring, signature or default *)
 
 Definition class_name (k : c19_class) : str :=
   match k with
   | K_api_appends => L "api-appends-to-existing-output"
-  | K_function_type => L "type-function-missing-function_type"
   | K_entry_undocumented => L "entry-undocumented-callable"
   | K_entry_no_params => L "entry-function-without-parameters"
   | K_entry_returns_argparse => L "entry-function-returns-argparse"
+  | K_entry_returns_function => L "entry-function-returns-function"
   | K_entry_annotated => L "entry-annotated-callable"
-  | K_imports_glued => L "imports-glued"
-  | K_prepend_glued => L "prepend-glued-to-import"
+  | K_entry_untyped_param => L "entry-untyped-parameter-function"
   end.
 
 Definition is_emitted (e : entry) : bool := match e_res e with Emitted _ => true | _ => false end.
@@ -255,20 +255,12 @@ Definition entry_class (type_ : str) (f : entry_feat) : option c19_class :=
   if negb (f_documented f) then Some K_entry_undocumented
   else if f_is_function f && Nat.eqb (f_n_params f) 0 then Some K_entry_no_params
   else if f_is_function f && f_returns f && str_eqb type_ (L "argparse") then Some K_entry_returns_argparse
-  else if f_is_function f && f_annotated f && f_doc_params f && str_eqb type_ (L "class") then Some K_entry_annotated
+  else if f_is_function f && f_returns f && str_eqb type_ (L "function") then Some K_entry_returns_function
+  else if f_is_function f && f_annotated f && f_doc_params f
+          && (str_eqb type_ (L "class") || str_eqb type_ (L "function")) then Some K_entry_annotated
+  else if str_eqb type_ (L "function") && negb (f_doc_params f) && negb (f_annotated f)
+          && Nat.ltb 0 (f_n_required f) then Some K_entry_untyped_param
   else None.
-
-Definition n_file_imports (parse_src : str -> option (list top)) (gi : gen_in) : nat :=
-  match gi_imports_from_file gi with
-  | Some (GOk f) => match parse_src f with Some tops => List.length (get_at_root_imports tops) | None => 0 end
-  | _ => 0
-  end.
-
-Definition prepend_open_line (gi : gen_in) : bool :=
-  match gi_prepend gi with
-  | Some p => nonempty p && negb (endswith [nl] p)
-  | None => false
-  end.
 
 Definition entries_of (gi : gen_in) : list entry :=
   match gi_mapping gi with GOk es => es | GErr _ => [] end.
@@ -278,14 +270,11 @@ Definition finding_class_C19 (parse_src : str -> option (list top)) (x : c19_in)
   match ci_existing x with
   | Some _ => match ci_via x with ViaApi => Some K_api_appends | ViaCli => None end
   | None =>
-    if str_eqb (gi_type gi) (L "function") then Some K_function_type
-    else if negb (forallb is_emitted (entries_of gi)) then
+    if negb (forallb is_emitted (entries_of gi)) then
       match first_failed (entries_of gi) (ci_feats x) with
       | Some f => entry_class (gi_type gi) f
       | None => None
       end
-    else if Nat.leb 2 (n_file_imports parse_src gi) then Some K_imports_glued
-    else if Nat.leb 1 (n_file_imports parse_src gi) && prepend_open_line gi then Some K_prepend_glued
     else None
   end.
 
@@ -298,10 +287,10 @@ Definition guard_C19 (parse_src : str -> option (list top)) (x : c19_in) : bool 
 (* ------------------------------------------------------------------ wire *)
 Definition dec_feat (e : sexp) : option entry_feat :=
   match e with
-  | SList [a; b; c; d; f; g] =>
-    let?? a := dec_bool a in let?? b := dec_bool b in let?? c := dec_nat c in
+  | SList [a; b; c; r; d; f; g] =>
+    let?? a := dec_bool a in let?? b := dec_bool b in let?? c := dec_nat c in let?? r := dec_nat r in
     let?? d := dec_bool d in let?? f := dec_bool f in let?? g := dec_bool g in
-    Some (mkFeat a b c d f g)
+    Some (mkFeat a b c r d f g)
   | _ => None
   end.
 
